@@ -39,11 +39,11 @@ def run(ctx):
     ctx.rule('C08.R4', 'Archive::save: create(tmp) -> write_all Ok -> sync_all Ok -> rename(tmp, path); .bak first; parent sync after', floor=4)
     ctx.rule('C08.R5', 'the archive path is used only by Archive::load and Archive::save', floor=1)
     bs = Bisync(ctx, F, 'C08.R3')
-    r1(ctx, F)
-    r2(ctx, F, bs)
-    r3(ctx, F, bs)
-    r4(ctx, F)
-    r5(ctx, F, bs)
+    ctx.attempt(r1, ctx, F)
+    ctx.attempt(r2, ctx, F, bs)
+    ctx.attempt(r3, ctx, F, bs)
+    ctx.attempt(r4, ctx, F)
+    ctx.attempt(r5, ctx, F, bs)
 
 
 def r1(ctx, F):
